@@ -19,7 +19,7 @@ pub fn push_char(out: &mut Vec<u8>, c: char) {
 
 const NICE_CHARS: &[u32] = &[
     0xe9, 0x20ac, 0x1f600, 0xfffd, 0x4e2d, 0x301, 0x200d, 0x80, 0x85, 0x9b, 0x9c, 0xa0, 0x7ff, 0x800, 0xffff,
-    0x10000, 0x10ffff, 0xd7ff, 0xe000, 0x212a, 0xff, 0x100,
+    0x10000, 0x10ffff, 0xd7ff, 0xe000, 0x212a, 0xff, 0x100, 0x2705, 0x271c, 0x2585,
 ];
 
 pub fn gen_char(r: &mut Rng) -> char {
@@ -157,6 +157,7 @@ pub fn gen_dcs(r: &mut Rng, out: &mut Vec<u8>, flavor: Flavor) {
         match r.below(10) {
             0 => out.push(*r.pick(&[0u8, 9, 10, 13, 0x1f, 0x7f, 7])),
             1 if flavor == Flavor::Full => out.push(r.range(0x80, 0xff) as u8),
+            2 if flavor != Flavor::SevenBit => push_char(out, gen_char(r)),
             _ => out.push(r.range(0x20, 0x7e) as u8),
         }
     }
@@ -170,6 +171,7 @@ pub fn gen_sos(r: &mut Rng, out: &mut Vec<u8>, flavor: Flavor) {
         match r.below(10) {
             0 => out.push(*r.pick(&[0u8, 9, 10, 13, 0x1f, 0x7f, 7])),
             1 if flavor == Flavor::Full => out.push(r.range(0x80, 0xff) as u8),
+            2 if flavor != Flavor::SevenBit => push_char(out, gen_char(r)),
             _ => out.push(r.range(0x20, 0x7e) as u8),
         }
     }
